@@ -97,6 +97,7 @@ def effStr : Eff → Option String
   | .arpProbe ip => some s!"arp:{ipStr ip}"
   | .pre c => some s!"pre:{ifcCompact c}" | .post c => some s!"post:{ifcCompact c}"
   | .deadlines d => some s!"dl:{d.t1}:{d.t2}:{d.tx}"
+  | .resume5s => some "rs:5000000000:5000000000:5000000000"
   | .fatalRoutersEmpty => some "fatal"
   | _ => none
 
